@@ -919,14 +919,29 @@ class Interp:
             return self.eval(e.body, env)
         return self.eval(e.orelse, env)
 
+    def _elts(self, elts, env):
+        out = []
+        for x in elts:
+            if isinstance(x, ast.Starred):
+                out.extend(list(self.eval(x.value, env)))   # [a, *rest]
+            else:
+                out.append(self.eval(x, env))
+        return out
+
     def e_Tuple(self, e, env):
-        return tuple(self.eval(x, env) for x in e.elts)
+        return tuple(self._elts(e.elts, env))
 
     def e_List(self, e, env):
-        return [self.eval(x, env) for x in e.elts]
+        return self._elts(e.elts, env)
 
     def e_Dict(self, e, env):
-        return {self.eval(k, env): self.eval(v, env) for k, v in zip(e.keys, e.values)}
+        out = {}
+        for k, v in zip(e.keys, e.values):
+            if k is None:
+                out.update(self.eval(v, env))   # {**other}
+            else:
+                out[self.eval(k, env)] = self.eval(v, env)
+        return out
 
     def e_Subscript(self, e, env):
         base = self.eval(e.value, env)
@@ -988,7 +1003,7 @@ class Interp:
         return self._comp(e, env, USet)
 
     def e_Set(self, e, env):
-        return USet([self.eval(x, env) for x in e.elts])
+        return USet(self._elts(e.elts, env))
 
     def e_DictComp(self, e, env):
         pair = ast.Tuple(elts=[e.key, e.value], ctx=ast.Load())
